@@ -153,6 +153,14 @@ def _selection(cx: Cx):
             reported.add(missing)
             cx.violation(rule, fn.qualname, missing, msg, where=where, **kw)
 
+    # every answer goes through the scoring and selection loop: a shortcut that returns run results directly (a one-combination
+    # grid, ...) hands back results without their 'score' and skips the documented selection
+    for p0 in cx.walker.paths(fn, WalkOptions(unroll=1, callee_raises=False, no_inline=NOINL)):
+        if p0.end == 'return' and not any(e.kind == 'loop' for e in p0.events):
+            viol('R-GUARD', 'every-answer-is-scored-and-selected',
+                 f"grid_search returns on a path [{p0.cond!r}] that never ran the scoring / selection loop: the returned results carry no "
+                 f"'score' and the best is not chosen by the documented rule", cx.where(fn, p0.last.line), path=p0.lines())
+            break
     for minimise in (True, False):
         case = 'minimising' if minimise else 'maximising'
 
